@@ -77,7 +77,8 @@ impl Bound for String {
         "str".to_string()
     }
     fn min() -> Self {
-        "\u{00}".to_string()
+        // the empty string is the least string; it must belong to the full text type
+        String::new()
     }
     fn max() -> Self {
         "\u{10FFFF}".to_string()
